@@ -33,6 +33,12 @@ def units(tier, seed):
                 for algo in ("gp", "hc", "rs"):
                     us.append({"kind": "search", "spec": spec, "rep": rep, "algo": algo, "depth_off": 2,
                                "max_dev": 1, "max_execs": 25 if tier == "quick" else 300})
+    # the other depth-counting mode (labelling reads a per-grammar table of hidden expansions there)
+    for spec in fam:
+        if spec["name"].split(":")[0] in ("S2", "S7", "S8", "S9", "S11", "S26", "S27", "S30") and not spec.get("stringify"):
+            for dec in ("maxdepth", "pigrow"):
+                us.append({"kind": "tree-create", "spec": spec, "decider": dec, "depth_off": 1, "xd": True, "max_execs": 300 if tier == "quick" else 3000})
+            us.append({"kind": "e2", "spec": spec, "rep": "tree", "depth_off": 1, "xd": True, "K": 2, "max_states": 15, "max_execs_per_op": 40})
     for est in ("regressor", "classifier"):
         us.append({"kind": "geml", "estimator": est})
     return us
